@@ -8,6 +8,11 @@ ids = [p["id"] for p in props]
 HOOK_COMMITS = ["332865e1b", "bf49db00e", "0b99e4fc0", "68bfb6d5a"]
 
 CHECKS = {
+ "C20": dict(
+   level="exploration", design="§4 C20",
+   technique="runtime monitoring: code-point reference oracle (Python str/re, 40-line LIKE matcher) over engine executions; UTF-8 validity monitor on raw result bytes in the driver; four-way agreement monitor for LIKE (constant pattern optimizer on / off, pattern from a column, NOT LIKE) and context agreement (column, under selection, folded constant)",
+   text="56 spellings of the documented string and regexp functions x argument sweeps (positions/counts -3..len+3, 100, i64 MIN/MAX, empty and multi-character pads/sets/delimiters) over an 18-symbol alphabet (ASCII, 2-4 byte code points, combining mark, %, _, backslash, regex metacharacters, newline): all strings of length <= 3 over 8 symbols (thorough: 18), random strings of 0-40 bytes biased to the 12-byte inline threshold and to long strings sharing 4-byte prefixes; NULL in every argument position; LIKE: all patterns x all strings of length <= 3 (thorough <= 4) over {a, b, e-acute, %, _, backslash} in every form, plus long strings and newline-bearing strings.",
+   note="Where the documentation is silent several outcomes are accepted (listed in the evidence assumptions). Built by a sub-agent, reviewed by the lead. Nine defects found by this check were repaired (LIKE rewrite ignoring the escape character, wildcards not matching newline, unwritten output slots for invalid per-row regexes, regexp_instr byte offsets, split_part negative indexes, substring/lpad/rpad/left/right corner cases)."),
  "C15": dict(
    level="exploration", design="§4 C15",
    technique="runtime monitoring: outcome-class monitor at the client boundary (rows|error vs panic, process death, deadlock, divergence) with journal attribution of process deaths to one statement, plus a session-state probe (catalog listing, table digest, settings, SELECT 1) after every statement compared with the probe before a failed statement",
